@@ -517,7 +517,10 @@ class Bits:
             self._bitstore = BitStore.frombytes(s.getvalue())
         elif isinstance(s, (io.BufferedReader, io.BufferedRandom)):
             # A file opened for reading ('rb') or for updating ('r+b').
-            self._setfile(s.name)
+            if getattr(s, 'name', None) is None:
+                self._bitstore = BitStore.frombytes(self._unnamed_file_contents(s).getvalue())
+            else:
+                self._setfile(s.name)
         elif isinstance(s, bitarray.bitarray):
             self._bitstore = BitStore(s)
         elif isinstance(s, array.array):
@@ -545,6 +548,8 @@ class Bits:
         if length is not None and length < 0:
             raise bitstring.CreationError(f"Can't create bitstring of negative length {length}.")
 
+        if isinstance(s, (io.BufferedReader, io.BufferedRandom)) and getattr(s, 'name', None) is None:
+            s = self._unnamed_file_contents(s)
         if isinstance(s, io.BytesIO):
             if offset > s.seek(0, 2) * 8:
                 raise bitstring.CreationError(f"The offset of {offset} bits is greater than the length of the BytesIO object ({s.seek(0, 2) * 8} bits).")
@@ -566,6 +571,16 @@ class Bits:
                           bitarray.bitarray, array.array, abc.Iterable)):
             raise bitstring.CreationError(f"Cannot initialise bitstring from type '{type(s)}' when using explicit lengths or offsets.")
         raise TypeError(f"Cannot initialise bitstring from type '{type(s)}'.")
+
+    @staticmethod
+    def _unnamed_file_contents(f: BinaryIO) -> io.BytesIO:
+        """The whole content of a buffered reader that is not over a named file (for example
+        io.BufferedReader(io.BytesIO(...))), which can't be memory mapped. Its position is left as it was."""
+        pos = f.tell()
+        f.seek(0)
+        data = f.read()
+        f.seek(pos)
+        return io.BytesIO(data)
 
     def _setfile(self, filename: str, length: Optional[int] = None, offset: Optional[int] = None) -> None:
         """Use file as source of bits."""
